@@ -381,6 +381,7 @@ pub fn supervisor_main(info: &CheckInfo, total_runs: u64, tier: Tier, verif_seed
 
     let mut live = slots.len();
     let mut deaths = 0u64;
+    let mut slow_not_reproduced = 0u64;
     let mut stopped_early = false;
     let mut confirmed_by_class: BTreeMap<String, u64> = BTreeMap::new();
     let mut unconfirmed_by_class: BTreeMap<String, u64> = BTreeMap::new();
@@ -532,6 +533,11 @@ pub fn supervisor_main(info: &CheckInfo, total_runs: u64, tier: Tier, verif_seed
                         e.1 = case;
                         e.2 = detail;
                     }
+                } else if class.starts_with("timeout") {
+                    // a run that exceeded the wall-clock backstop in the loaded batch but completes when
+                    // re-executed alone was slow, not stuck: counted, not judged (the deterministic
+                    // meters, not the wall clock, decide "out of proportion")
+                    slow_not_reproduced += 1;
                 } else {
                     harness_errors.push(format!("run {}: worker death '{}' did not reproduce ({} of 2)\n{}", i, sig, confirmed, tail(&stderr, 12)));
                 }
@@ -665,6 +671,7 @@ pub fn supervisor_main(info: &CheckInfo, total_runs: u64, tier: Tier, verif_seed
             "determinism_selfcheck": {"runs_reexecuted_in_other_process": det_checked, "mismatches": det_mismatch},
             "known_findings_hit": known_hit,
             "worker_deaths": deaths,
+            "timeouts_under_load_not_reproduced_alone": slow_not_reproduced,
             "stopped_early_after_many_worker_deaths": stopped_early,
             "workers": w_count,
         },
@@ -692,7 +699,11 @@ pub fn supervisor_main(info: &CheckInfo, total_runs: u64, tier: Tier, verif_seed
         for e in harness_errors.iter().take(20) {
             eprintln!("HARNESS-ERROR: {}", e);
         }
-        return 2;
+        // confirmed and replayed violations stand on their own; without any, a harness error means
+        // the run proves nothing
+        if exit != 1 {
+            return 2;
+        }
     }
     exit
 }
